@@ -37,6 +37,7 @@ func goKinds() []kindCase {
 		{"complex128", reflect.TypeOf(complex128(0))}, {"string", str}, {"bytes", reflect.TypeOf([]byte(nil))},
 		{"[0]byte", reflect.TypeOf([0]byte{})}, {"[1]byte", reflect.TypeOf([1]byte{})}, {"[3]byte", reflect.TypeOf([3]byte{})}, {"[4]byte", reflect.TypeOf([4]byte{})},
 		{"[8]byte", reflect.TypeOf([8]byte{})}, {"[16]byte", reflect.TypeOf([16]byte{})}, {"[4]int8", reflect.TypeOf([4]int8{})}, {"[2]int64", reflect.TypeOf([2]int64{})},
+		{"[3]uint32", reflect.TypeOf([3]uint32{})}, {"[4]uint32", reflect.TypeOf([4]uint32{})}, {"*[3]uint32", reflect.TypeOf((*[3]uint32)(nil))},
 		{"[]int64", reflect.SliceOf(i64)}, {"[]int16", reflect.TypeOf([]int16(nil))}, {"[]string", reflect.SliceOf(str)}, {"[]bool", reflect.TypeOf([]bool(nil))},
 		{"[]float32", reflect.TypeOf([]float32(nil))}, {"[][4]byte", reflect.TypeOf([][4]byte(nil))}, {"[]int8", reflect.TypeOf([]int8(nil))},
 		{"map[string]int64", reflect.MapOf(str, i64)}, {"map[string]string", reflect.MapOf(str, str)}, {"map[string]int16", reflect.TypeOf(map[string]int16(nil))},
@@ -60,6 +61,8 @@ func schemaTypes() []string {
 	return []string{
 		`"null"`, `"boolean"`, `"int"`, `"long"`, `"float"`, `"double"`, `"bytes"`, `"string"`,
 		`{"type":"fixed","name":"F4","size":4}`, `{"type":"fixed","name":"F0","size":0}`, `{"type":"fixed","name":"F16","size":16}`, `{"type":"fixed","name":"F3","size":3}`,
+		// logical types the library does not interpret change nothing about what a fixed is
+		`{"type":"fixed","name":"D12","size":12,"logicalType":"duration"}`, `{"type":"fixed","name":"D16","size":16,"logicalType":"duration"}`, `{"type":"fixed","name":"Dec8","size":8,"logicalType":"decimal","precision":12,"scale":2}`,
 		`{"type":"enum","name":"E","symbols":["A","B"]}`,
 		`{"type":"array","items":"long"}`, `{"type":"array","items":"string"}`, `{"type":"array","items":"boolean"}`, `{"type":"array","items":{"type":"fixed","name":"AF4","size":4}}`,
 		`{"type":"array","items":{"type":"fixed","name":"AF16","size":4}}`, `{"type":"array","items":"double"}`,
